@@ -712,6 +712,37 @@ def r18j(run):
     run.ob("R18j", f, "decorator form of Options examined", True, nontrivial=False, detail=f"{len(subst)} substitute classes")
 
 
+def r18l(run, rule="R18l"):
+    """class options are inherited: the parser of a subclass that declares no options of its own is built with the options
+    found through normal attribute lookup (getattr), never with the class's own namespace only"""
+    f = run.repo.func("utype.parser.base", "BaseParser.apply_for")
+    obj = f.params[1] if len(f.params) > 1 else "obj"
+    reads = []
+    for x in walk_shallow(f.node):
+        if isinstance(x, ast.Constant) and x.value == "__options__":
+            reads.append(x)
+    inherit = own_only = 0
+    for c in walk_shallow(f.node):
+        if isinstance(c, ast.Call) and any(isinstance(a, ast.Constant) and a.value == "__options__" for a in c.args):
+            if isinstance(c.func, ast.Name) and c.func.id == "getattr" and c.args and unparse(c.args[0]) == obj:
+                inherit += 1
+            else:
+                own_only += 1       # obj.__dict__.get('__options__'), vars(obj).get(...), ...
+    for x in walk_shallow(f.node):
+        if isinstance(x, ast.Attribute) and x.attr == "__options__" and unparse(x.value) == obj:
+            inherit += 1
+        if isinstance(x, ast.Subscript) and isinstance(x.slice, ast.Constant) and x.slice.value == "__options__":
+            own_only += 1
+    run.check(rule, f, "the options of a class are found through attribute lookup (inherited from its bases)",
+              inherit >= 1 and own_only == 0, construct="class options read from the class's own namespace",
+              message=f"BaseParser.apply_for reads `__options__` {inherit} time(s) through getattr / attribute access and "
+                      f"{own_only} time(s) from the class's own namespace: a subclass that inherits its options is parsed "
+                      f"with none",
+              necessity="class Base(Schema): __options__ = Options(max_depth=2); class Node(Base): child: Optional['Node'] - "
+                        "the limit (and every other option) is lost for Node: depth 5 is accepted, a cyclic input is not "
+                        "rejected")
+
+
 def check(run):
     run.rules_run += ["R18a", "R18b", "R18c", "R18d", "R18e", "R18f", "R18g", "R18h", "R18i", "R18j"]
     run.explain("C18: (R18a) the route parameter of RuntimeContext is tested None-exactly, depth is inherited, "
@@ -731,6 +762,8 @@ def check(run):
     run.rule(r18h, run)
     run.rule(r18i, run)
     run.rule(r18j, run)
+    run.rules_run.append("R18l")
+    run.rule(r18l, run)
     # shared with C10: with collect_errors the depth error is only recorded; the limit rejects at every position only if
     # each context owner passes raise_error() before it returns
     from . import c04, c10
